@@ -10,6 +10,9 @@ pyx.Unsupported, which ./check reports as a broken tie):
   fermi_hubbard_hamiltonian.py  as_field_operator -> gen_hub_kin / gen_hub_int / gen_hub_fop
                              (coefficient expressions, np.kron(np.identity(2), adj[:h,:h]), the index
                              tuples written into int_coeffs, loop bounds, operator patterns, term order)
+  all three lattice models   __init__: fail-closed guard that the isinstance validations which make the couplings real
+                             (Hubbard: also LayeredLattice with two layers when spinful) are present and the attributes are
+                             stored unchanged (ctor_guard)
   molecular_hamiltonian.py   __init__ symmetry checks -> gen_mol_ctor (guards, transposition tuples),
                              is_hermitian -> gen_mol_is_hermitian, as_field_operator -> gen_mol_fop
                              (0.5 factor, the (0,1,3,2) transposition, patterns, term order)
@@ -40,7 +43,8 @@ def fail(msg, node=None):
 class Env:
     """nat-valued names, letter-valued names, scalar-valued attribute names"""
 
-    def __init__(self, nats, letters=(), scalars=None, vectors=None, adj="adj"):
+    def __init__(self, nats, letters=(), scalars=None, vectors=None, adj="adj", neg_first=True):
+        self.neg_first = neg_first             # shape of the adjacency test in the hand-written model of this method
         self.nats = set(nats)
         self.letters = set(letters)
         self.scalars = dict(scalars or {})     # 'self.J' -> coq name
@@ -48,7 +52,7 @@ class Env:
         self.adj = adj
 
     def child(self, nats=(), letters=()):
-        e = Env(self.nats | set(nats), self.letters | set(letters), self.scalars, self.vectors, self.adj)
+        e = Env(self.nats | set(nats), self.letters | set(letters), self.scalars, self.vectors, self.adj, self.neg_first)
         return e
 
 
@@ -92,15 +96,23 @@ def adj_index(e, env):
 
 
 def bool_expr(e, env):
-    """adj[i, j] == 0  /  adj[i, j] != 0"""
+    """adj[i, j] == 0  /  adj[i, j] != 0   ->   (i, j, True iff the test holds when the entry is non-zero)"""
     if (isinstance(e, ast.Compare) and len(e.ops) == 1 and isinstance(e.comparators[0], ast.Constant)
             and e.comparators[0].value == 0 and not isinstance(e.comparators[0].value, bool)):
         i, j = adj_index(e.left, env)
         if isinstance(e.ops[0], ast.Eq):
-            return "(negb (adj %s %s))" % (i, j)
+            return i, j, False
         if isinstance(e.ops[0], ast.NotEq):
-            return "(adj %s %s)" % (i, j)
+            return i, j, True
     fail("condition", e)
+
+
+def when_adj(env, i, j, if_edge, if_not):
+    """one canonical shape per method for `if adj[i,j] == 0: continue` / `if adj[i,j] != 0: ...` (both polarities of
+    the Python test give the same term, so that an equivalent rewrite of the source still matches the model)"""
+    if env.neg_first:
+        return "if (negb (adj %s %s)) then %s else %s" % (i, j, if_not, if_edge)
+    return "if (adj %s %s) then %s else %s" % (i, j, if_edge, if_not)
 
 
 def range_bounds(call, env):
@@ -168,13 +180,15 @@ def block(stmts, env, st, stmt_fn):
         else:
             fail("loop target", s)
     elif isinstance(s, ast.If):
-        cond = bool_expr(s.test, env)
+        i, j, pos = bool_expr(s.test, env)
         if len(s.body) == 1 and isinstance(s.body[0], ast.Continue) and not s.orelse:
             # `if c: continue` guards the rest of the loop body
-            return "if %s then %s else %s" % (cond, st, block(rest, env, st, stmt_fn))
+            r = block(rest, env, st, stmt_fn)
+            return when_adj(env, i, j, st, r) if pos else when_adj(env, i, j, r, st)
         if s.orelse:
             fail("if/else inside a loop", s)
-        cur = "if %s then %s else %s" % (cond, block(s.body, env, st, stmt_fn), st)
+        b = block(s.body, env, st, stmt_fn)
+        cur = when_adj(env, i, j, b, st) if pos else when_adj(env, i, j, st, b)
     else:
         cur = stmt_fn(s, env, st)
     if not rest:
@@ -206,8 +220,53 @@ def const_bool_method(cls, name):
     fail("%s: not a constant boolean" % name)
 
 
+# ---------------------------------------------------------------------------- constructors
+def ctor_guard(cls, real_tests, assigns):
+    """__init__ must consist of `if ...: raise ValueError(...)` validations (possibly nested in `if`/`for`)
+    followed by plain attribute assignments `self.x = x` (exactly `assigns`), and must contain every test in
+    `real_tests` (the checks that make the couplings real numbers: the theorems' hypotheses sconj x = x)."""
+    init = find_func(cls, "__init__")
+    tests, tail = [], []
+
+    def walk(stmts, top):
+        for s_ in stmts:
+            if isinstance(s_, ast.If) and not s_.orelse and len(s_.body) == 1 and isinstance(s_.body[0], ast.Raise):
+                exc = s_.body[0].exc
+                if not (isinstance(exc, ast.Call) and un(exc.func) == "ValueError"):
+                    fail("constructor validation must raise ValueError", s_)
+                tests.append(un(s_.test))
+            elif isinstance(s_, ast.If) and not s_.orelse:
+                walk(s_.body, False)
+            elif isinstance(s_, ast.For) and not s_.orelse and isinstance(s_.target, ast.Name) \
+                    and un(s_.iter).startswith("range("):
+                walk(s_.body, False)
+            elif isinstance(s_, ast.Assign) and top:
+                tail.append(un(s_))
+            elif isinstance(s_, ast.Expr) and isinstance(s_.value, ast.Constant) and isinstance(s_.value.value, str):
+                continue          # comment-like string
+            else:
+                fail("constructor statement", s_)
+    walk(body_nodoc(init), True)
+    for t in real_tests:
+        if t not in tests:
+            fail("constructor of %s lacks the validation `if %s: raise ValueError`" % (cls.name, t))
+    if tail != assigns:
+        fail("constructor of %s: attribute assignments are %r" % (cls.name, tail))
+
+
+def as_matrix_guard(cls, via):
+    """as_matrix must be the matrix of the generated operator (nothing applied in between)"""
+    b = [un(x) for x in body_nodoc(find_func(cls, "as_matrix"))]
+    ok = [["return self.%s().as_matrix()" % via], ["op = self.%s()" % via, "return op.as_matrix()"]]
+    if b not in ok:
+        fail("%s.as_matrix is %r" % (cls.name, b))
+
+
 def gen_ising(out):
     cls = find_class(parse(F_ISING), "IsingHamiltonian")
+    ctor_guard(cls, ["not isinstance(%s, (int, float))" % x for x in "Jhg"] + ["not isinstance(convention, IsingConvention)"],
+               ["self.field = field", "self.J = J", "self.h = h", "self.g = g", "self.convention = convention"])
+    as_matrix_guard(cls, "as_pauli_operator")
     out.append("Definition gen_ising_is_hermitian : bool := %s." % const_bool_method(cls, "is_hermitian"))
     b = strip_prelude(body_nodoc(find_func(cls, "as_pauli_operator")),
                       ["assert adj.shape == (L, L)", "op = PauliOperator()"])
@@ -240,6 +299,9 @@ def gen_ising(out):
 
 def gen_heis(out):
     cls = find_class(parse(F_HEIS), "HeisenbergHamiltonian")
+    ctor_guard(cls, ["not (len(J) == 3 and len(h) == 3)", "not isinstance(J[i], (int, float))", "not isinstance(h[i], (int, float))"],
+               ["self.field = field", "self.J = tuple(J)", "self.h = tuple(h)"])
+    as_matrix_guard(cls, "as_pauli_operator")
     out.append("Definition gen_heis_is_hermitian : bool := %s." % const_bool_method(cls, "is_hermitian"))
     b = strip_prelude(body_nodoc(find_func(cls, "as_pauli_operator")),
                       ["assert adj.shape == (L, L)", "op = PauliOperator()"])
@@ -359,12 +421,16 @@ def tset_stmt(stmt, env, st):
 
 def gen_hubbard(out):
     cls = find_class(parse(F_HUB), "FermiHubbardHamiltonian")
+    ctor_guard(cls, ["not isinstance(t, float)", "not isinstance(u, float)", "not isinstance(field.lattice, LayeredLattice)",
+                     "field.lattice.nlayers != 2"],
+               ["self.t = t", "self.u = u", "self.spin = spin", "self.field = field"])
+    as_matrix_guard(cls, "as_field_operator")
     out.append("Definition gen_hub_is_hermitian : bool := %s." % const_bool_method(cls, "is_hermitian"))
     b = strip_prelude(body_nodoc(find_func(cls, "as_field_operator")))
     sw = b[0]
     if not (isinstance(sw, ast.If) and un(sw.test) == "self.spin" and sw.orelse):
         fail("spin switch", sw)
-    env = Env(["L"], scalars={"self.t": "self_t", "self.u": "self_u"})
+    env = Env(["L"], scalars={"self.t": "self_t", "self.u": "self_u"}, neg_first=False)
 
     def branch(ss, asserts):
         ss = list(ss)
@@ -397,6 +463,7 @@ def gen_hubbard(out):
 
 def gen_molecular(out):
     cls = find_class(parse(F_MOL), "MolecularHamiltonian")
+    as_matrix_guard(cls, "as_field_operator")
     # ---- is_hermitian
     b = body_nodoc(find_func(cls, "is_hermitian"))
     if not (len(b) == 1 and isinstance(b[0], ast.Return)
